@@ -139,8 +139,60 @@ def run_config(prog, cfg):
     return [r]
 
 
+def r18_2(prog, rid="R18.2"):
+    """Identifier cells of an information object set emitted as INTEGER_t literals (the -fwide-types representation)
+    denote the identifier.  Wherever the compiler prints a k-octet literal (`"\\x%02x...", k`) for a value v, the
+    branches that dominate the call must imply 0 <= v <= 2^(8k-1)-1; otherwise the top bit is set and the literal is
+    a negative two's-complement number: the object table row can never match the decoded identifier."""
+    from .. import assume
+    r = Rule(rid, "INTEGER_t literals printed for object-set identifier cells are non-negative two's-complement encodings of the value", floor=2)
+    for f in sorted(prog.funcs.values(), key=lambda f: f.key):
+        if "libasn1compiler/" not in f.relfile:
+            continue
+        dom = None
+        for b, i, e in f.calls():
+            fmt = None
+            fi = None
+            for ai, a in enumerate(e.get("args", [])):
+                t = a.get("tree")
+                if isinstance(t, list) and t and t[0] == "str" and "\\x%02x" in str(t[1]):
+                    fmt, fi = str(t[1]), ai
+            if fmt is None:
+                continue
+            k = fmt.count("\\x%02x")
+            vars_ = set()
+            for a in e["args"][fi + 1:]:
+                vars_ |= {n[1] for n in walk(a.get("tree")) if n[0] == "var"}
+            if len(vars_) != 1:
+                continue
+            v = sorted(vars_)[0]
+            vt = next(n for a in e["args"][fi + 1:] for n in walk(a.get("tree")) if n[0] == "var" and n[1] == v)
+            if dom is None:
+                dom = f.dominators()
+            facts = []
+            for d in dom.get(b.id, ()):
+                tb = f.blocks[d]
+                if not tb.term or "cond" not in tb.term or len(tb.succ) < 2 or tb.term["kind"] == "SwitchStmt":
+                    continue
+                for idx, truth in ((0, True), (1, False)):
+                    if f.edge_dominates(d, idx, b.id):
+                        fo = assume._fact_of(tb.term["cond"]["tree"], truth)
+                        if fo is not None:
+                            facts.append(fo)
+            hi = (1 << (8 * k - 1)) - 1
+            ok_hi = assume.fact_query(tuple(facts), ["bin", "<=", vt, ["int", hi]])
+            ok_lo = assume.fact_query(tuple(facts), ["bin", ">=", vt, ["int", 0]])
+            key = "%d-octet literal of %s" % (k, v.split("@")[0])
+            if ok_hi is True and ok_lo is True:
+                r.ok(f, key, "dominating branches imply 0 <= %s <= %d" % (v.split("@")[0], hi), e["line"])
+            else:
+                r.bad(f, key, "a %d-octet literal is printed for %s but the dominating branches do not imply 0 <= %s <= %d: values above "
+                              "that bound come out as negative INTEGERs and never match the decoded identifier" % (k, v.split("@")[0], v.split("@")[0], hi), e["line"])
+    return r
+
+
 def run(ctx):
-    return run_config(ctx.prog("S"), "default")
+    return run_config(ctx.prog("S"), "default") + [r18_2(ctx.prog("K"))]
 
 
 def thorough(ctx):
